@@ -1,6 +1,6 @@
 (* C08 — property theorems (statements only; proofs live in Proofs*.v).  See notes/C08.md for the status of each. *)
 From Coq Require Import List ZArith QArith Qabs Bool.
-Require Import QV.C08.Model QV.C08.Spec QV.C08.Wf QV.C08.Proofs QV.C08.ProofsVec QV.C08.ProofsRev QV.C08.ProofsConst.
+Require Import QV.C08.Model QV.C08.Spec QV.C08.Wf QV.C08.Proofs QV.C08.ProofsVec QV.C08.ProofsRev QV.C08.ProofsConst QV.C08.ProofsTotal QV.C08.ProofsProper QV.C08.ProofsCtor.
 Import ListNotations.
 Open Scope Q_scope.
 
@@ -48,17 +48,23 @@ Theorem C08_reverse_plain : forall w c t, sample (WRev w) c t = sample w c (dura
 Proof. exact rev_plain_mirror. Qed.
 Print Assumptions C08_reverse_plain.
 
-Definition C08_reverse_statement : Prop :=
-  forall w c t, oQeq (sample (reversed w) c t) (sample w c (duration w - t)).
-Theorem C08_reverse_partial : forall w c t, is_rev w = false -> sample (reversed w) c t = sample w c (duration w - t).
-Proof. exact reversed_mirror_partial. Qed.
-Print Assumptions C08_reverse_partial.
+(* w.reversed(): constants are their own reverse, a ReversedWaveform gives its inner waveform back, anything else is wrapped *)
+Theorem C08_reverse : forall w c t, oQeq (sample (reversed w) c t) (sample w c (duration w - t)).
+Proof. exact reversed_mirror. Qed.
+Print Assumptions C08_reverse.
 
-Definition C08_involution_statement : Prop :=
-  forall w c t, oQeq (sample (reversed (reversed w)) c t) (sample w c t).
-Theorem C08_involution_partial : forall w c t, is_rev_rev w = false -> sample (reversed (reversed w)) c t = sample w c t.
-Proof. exact reversed_involution_partial. Qed.
-Print Assumptions C08_involution_partial.
+Theorem C08_involution : forall w c t, oQeq (sample (reversed (reversed w)) c t) (sample w c t).
+Proof. exact reversed_involution. Qed.
+Print Assumptions C08_involution.
+
+Theorem C08_reversed_keeps_duration_channels : forall w, duration (reversed w) = duration w /\ channels (reversed w) = channels w.
+Proof. intros w. split; [apply reversed_duration|apply reversed_channels]. Qed.
+Print Assumptions C08_reversed_keeps_duration_channels.
+
+(* the pointwise meaning does not depend on the representation of the time *)
+Theorem C08_sample_proper : forall w c t t', t == t' -> oQeq (sample w c t) (sample w c t').
+Proof. exact sample_proper. Qed.
+Print Assumptions C08_sample_proper.
 
 (* ---- totality: refuted on the unchanged code (known findings C08-nan-at-duration, C08-reversed-composite-junction) ---- *)
 Definition C08_total_statement : Prop :=
@@ -79,3 +85,85 @@ Theorem C08_reversed_junction_refuted :
                 /\ oQeqb (gs (WRev w) c t) (den (WRev w) c t) = false.
 Proof. exact reversed_junction_refuted. Qed.
 Print Assumptions C08_reversed_junction_refuted.
+
+(* ---- totality under the executable guards that exclude exactly the refuted classes (no TransformingWaveform) ---- *)
+(* guard_C08_nan_at_duration + guard_C08_reversed_composite = [rightopenb] and t < duration *)
+Theorem C08_total_guarded : forall w, okb w = true -> rightopenb w = true -> forall c t,
+  inb c (channels w) = true -> 0 <= t -> t < duration w -> exists v, sample w c t = Some v.
+Proof. exact total_rightopen. Qed.
+Print Assumptions C08_total_guarded.
+(* without sequence / repetition nodes the closed interval is covered *)
+Theorem C08_total_closed : forall w, okb w = true -> closedb w = true -> forall c t,
+  inb c (channels w) = true -> 0 <= t -> t <= duration w -> exists v, sample w c t = Some v.
+Proof. exact total_closed. Qed.
+Print Assumptions C08_total_closed.
+
+(* ---- optimising constructors: the constant-folding branch samples like the plain composite (on [0, duration)) ---- *)
+(* ConstantWaveform.from_mapping: one constant per binding (sorted multi-channel waveform): every bound channel is answered
+   with its (reduced) value *)
+Theorem C08_from_mapping : forall dur d w', from_mapping dur d = OK w' -> forall c v t,
+  lookup c d = Some v -> sample w' c t = Some (Qred v).
+Proof. exact from_mapping_sample. Qed.
+Print Assumptions C08_from_mapping.
+
+(* constant_value_dict agrees with constant_value on the defined channels and binds nothing else *)
+Theorem C08_constant_dict : forall w d, okb w = true -> cvd w = Some d -> forall c,
+  (inb c (channels w) = true -> lookup c d = cv w c /\ cv w c <> None) /\
+  (inb c (channels w) = false -> lookup c d = None).
+Proof. exact cvd_sound. Qed.
+Print Assumptions C08_constant_dict.
+
+Theorem C08_from_repetition_count : forall b n w', okb b = true -> (1 <= n)%Z ->
+  from_repetition_count b n = OK w' -> forall c t,
+  inb c (channels b) = true -> 0 <= t -> t < duration (WRep b n) ->
+  oQeq (sample w' c t) (sample (WRep b n) c t).
+Proof. exact from_repetition_count_sound. Qed.
+Print Assumptions C08_from_repetition_count.
+
+Theorem C08_from_functor : forall i f w', okb i = true -> set_eqb (keys f) (channels i) = true ->
+  from_functor i f = OK w' -> forall c t,
+  inb c (channels i) = true -> 0 <= t -> t < duration i ->
+  oQeq (sample w' c t) (sample (WFunctor i f) c t).
+Proof. exact from_functor_sound. Qed.
+Print Assumptions C08_from_functor.
+
+Theorem C08_from_to_reverse : forall w, okb w = true -> forall c t,
+  inb c (channels w) = true -> 0 < t -> t < duration w ->
+  oQeq (sample (from_to_reverse w) c t) (sample (WRev w) c t).
+Proof. exact from_to_reverse_sound. Qed.
+Print Assumptions C08_from_to_reverse.
+
+(* from_sequence: the constant-folding branch (all parts report dict-equal constants) ... *)
+Theorem C08_from_sequence_const : forall l d w', okb (WSeq l) = true ->
+  fold_left cvs_step l (match l with x :: _ => cvd x | [] => None end) = Some d ->
+  from_sequence l = OK w' -> forall c t,
+  inb c (channels (WSeq l)) = true -> 0 <= t -> t < duration (WSeq l) ->
+  oQeq (sample w' c t) (sample (WSeq l) c t).
+Proof. exact from_sequence_const_sound. Qed.
+Print Assumptions C08_from_sequence_const.
+(* ... and without folding and without nested sequences it IS the plain constructor (flattening of nested sequences,
+   from_parallel, from_operator, from_transformation, from_table de-duplication: not proved, see notes) *)
+Theorem C08_from_sequence_plain : forall l, (2 <= length l)%nat ->
+  Forall (fun w => is_seq w = None) l ->
+  fold_left cvs_step l (match l with x :: _ => cvd x | [] => None end) = None ->
+  from_sequence l = mk_seq l.
+Proof. exact from_sequence_plain. Qed.
+Print Assumptions C08_from_sequence_plain.
+Definition C08_constructors_statement : Prop :=
+  forall r w wp, build r = OK w -> build_plain r = OK wp -> forall c t,
+  inb c (channels wp) = true -> 0 <= t -> t < duration wp -> oQeq (sample w c t) (sample wp c t).
+
+(* ---- channel subsets ---- *)
+Theorem C08_subset_plain : forall w cs c t,
+  sample (WSubset w cs) c t = sample w c t /\ channels (WSubset w cs) = cs /\ duration (WSubset w cs) = duration w
+  /\ cv (WSubset w cs) c = cv w c.
+Proof. exact subset_plain. Qed.
+Print Assumptions C08_subset_plain.
+Definition C08_subset_statement : Prop :=
+  forall w cs w', okb w = true -> get_subset w cs = OK w' -> forall c t, inb c cs = true -> 0 <= t -> t < duration w ->
+  oQeq (sample w' c t) (sample w c t).
+Theorem C08_subset_partial : forall w cs w', subset_simple w = true -> get_subset w cs = OK w' ->
+  subsetb cs (channels w) = true /\ (forall c t, sample w' c t = sample w c t) /\ duration w' = duration w /\
+  (set_eqb cs (channels w) = true -> w' = w).
+Proof. exact get_subset_simple_sound. Qed.
+Print Assumptions C08_subset_partial.
